@@ -190,6 +190,102 @@ func hugeClass(t *rapid.T, idx int) jgen.File {
 	return jgen.File{Path: fmt.Sprintf("com/acme/shop/Huge%d.java", idx), Text: w.b.String()}
 }
 
+const moduleRoot = "billing-module/src/main/java/"
+
+// secondRootFiles: a second source root (a module of its own) that declares types of the shop
+// package again, under the same full names, with other members. Every table keyed by full type
+// or method name holds one of the two declarations; which one must not depend on the run.
+func secondRootFiles(t *rapid.T) []jgen.File {
+	var files []jgen.File
+	w := &jw{}
+	w.f("package %s;\n\npublic class Order {\n    private Long name;\n    private int rev;\n\n", shopPkg)
+	w.f("    public Long getName() {\n        return name;\n    }\n\n    public int getRev() {\n        return rev;\n    }\n\n")
+	if rapid.Bool().Draw(t, "moduleOrderBehaviour") {
+		w.f("    public String label() {\n        return null;\n    }\n\n")
+	}
+	w.f("}\n")
+	files = append(files, jgen.File{Path: moduleRoot + "com/acme/shop/Order.java", Text: w.b.String()})
+	if rapid.Bool().Draw(t, "moduleRepo") {
+		w = &jw{}
+		w.f("package %s;\n\npublic class OrderRepo {\n", shopPkg)
+		w.f("    public Order find(int id) {\n        this.purge();\n        this.count();\n        return new Order();\n    }\n\n")
+		w.f("    public void purge() {\n        this.count();\n    }\n\n    public int count() {\n        return 2;\n    }\n\n")
+		w.f("    public void save(Order order) {\n        this.purge();\n    }\n}\n")
+		files = append(files, jgen.File{Path: moduleRoot + "com/acme/shop/OrderRepo.java", Text: w.b.String()})
+	}
+	return files
+}
+
+// suffixImportFiles: a class whose imports end in one another (shop.OrderRepo, shop.legacy.Repo),
+// written in either order, which extends the shorter one, calls super and holds fields of both.
+func suffixImportFiles(t *rapid.T) ([]jgen.File, []string) {
+	var files []jgen.File
+	legacyPkg, auditPkg := shopPkg+".legacy", shopPkg+".audit"
+	files = append(files, jgen.File{Path: "com/acme/shop/legacy/Repo.java", Text: "package " + legacyPkg + ";\n\npublic class Repo {\n    public int load() {\n        return 1;\n    }\n\n    public int count() {\n        return 3;\n    }\n}\n"})
+	imps := []string{shopPkg + ".OrderRepo", legacyPkg + ".Repo"}
+	if rapid.Bool().Draw(t, "shortImportFirst") {
+		imps[0], imps[1] = imps[1], imps[0]
+	}
+	w := &jw{}
+	w.f("package %s;\n\nimport %s;\nimport %s;\n\npublic class AuditArchive extends Repo {\n    private Repo repo;\n    private OrderRepo orderRepo;\n\n", auditPkg, imps[0], imps[1])
+	w.f("    public int load() {\n        repo.count();\n        orderRepo.count();\n        return super.load();\n    }\n\n")
+	w.f("    public int sum(Repo other) {\n        other.load();\n        orderRepo.find(1);\n        this.load();\n        return 1;\n    }\n}\n")
+	files = append(files, jgen.File{Path: "com/acme/shop/audit/AuditArchive.java", Text: w.b.String()})
+	return files, []string{auditPkg + ".AuditArchive.load", auditPkg + ".AuditArchive.sum", legacyPkg + ".Repo.load"}
+}
+
+// wideService: a service with 17-40 methods, most of which may return null: more nullable
+// methods, life-cycle groups, return-type groups and long parameter lists than fit one map bucket
+// (8), and than 16 / 32.
+func wideService(t *rapid.T) (jgen.File, []string) {
+	w := &jw{}
+	w.f("package %s;\n\npublic class BulkService {\n    private OrderRepo orderRepo;\n\n", shopPkg)
+	n := rapid.SampledFrom([]int{17, 21, 33, 40}).Draw(t, "nBulkMethods")
+	verbs := []string{"ship", "cancel", "refund", "archive", "print"}
+	nouns := []string{"Order", "Item", "Batch"}
+	var roots []string
+	for i := 0; i < n; i++ {
+		ret := rapid.SampledFrom([]string{"Order", "Item", "Order", "String", "void"}).Draw(t, "bulkRet")
+		name := fmt.Sprintf("%s%s%d", verbs[i%len(verbs)], nouns[i%len(nouns)], i)
+		w.f("    public %s %s(%s) {\n        orderRepo.find(%d);\n", ret, name, paramList(longParams[:i%7]), i)
+		switch ret {
+		case "void":
+		case "String":
+			w.f("        return \"s\";\n")
+		default:
+			w.f("        return null;\n")
+		}
+		w.f("    }\n\n")
+		if i < 3 {
+			roots = append(roots, shopPkg+".BulkService."+name)
+		}
+	}
+	w.f("}\n")
+	return jgen.File{Path: "com/acme/shop/BulkService.java", Text: w.b.String()}, roots
+}
+
+// manyTests: a test class with 21-26 small tests, so that more than twenty test smells are found
+// (`coca tbs` prints its table only up to twenty).
+func manyTests(t *rapid.T) jgen.File {
+	w := &jw{}
+	w.f("package %s;\n\nimport org.junit.Test;\nimport org.junit.Ignore;\nimport static org.junit.Assert.assertEquals;\n\npublic class ShopBulkTest {\n", shopPkg)
+	n := rapid.IntRange(21, 26).Draw(t, "nBulkTests")
+	for i := 0; i < n; i++ {
+		switch rapid.IntRange(0, 3).Draw(t, "bulkTestKind") {
+		case 0:
+			w.f("    @Test\n    public void empty%d() {\n    }\n\n", i)
+		case 1:
+			w.f("    @Ignore\n    public void skipped%d() {\n        OrderRepo repo = new OrderRepo();\n        assertEquals(1, repo.count());\n    }\n\n", i)
+		case 2:
+			w.f("    @Test\n    public void blind%d() {\n        OrderRepo repo = new OrderRepo();\n        repo.count();\n        repo.find(%d);\n    }\n\n", i, i)
+		default:
+			w.f("    @Test\n    public void same%d() {\n        assertEquals(%d, %d);\n        assertEquals(1, 1);\n    }\n\n", i, i, i)
+		}
+	}
+	w.f("}\n")
+	return jgen.File{Path: "com/acme/shop/ShopBulkTest.java", Text: w.b.String()}
+}
+
 func genShopExtras(t *rapid.T, hasUtil bool) shopExtras {
 	var x shopExtras
 	if lv := rapid.IntRange(0, 2).Draw(t, "dupNameLevel"); lv > 0 {
@@ -219,6 +315,21 @@ func genShopExtras(t *rapid.T, hasUtil bool) shopExtras {
 		k := rapid.IntRange(0, len(kinds)-1).Draw(t, "ignoreKind")
 		x.ignore = append(x.ignore, kinds[k])
 		kinds = append(kinds[:k:k], kinds[k+1:]...)
+	}
+	// shapes added later, each behind its own draw
+	if rapid.IntRange(0, 2).Draw(t, "secondSourceRoot") == 2 {
+		x.files = append(x.files, secondRootFiles(t)...)
+	}
+	if rapid.IntRange(0, 2).Draw(t, "suffixImports") == 2 {
+		fs, rs := suffixImportFiles(t)
+		x.files, x.roots = append(x.files, fs...), append(x.roots, rs...)
+	}
+	if rapid.IntRange(0, 3).Draw(t, "wideService") == 3 {
+		f, rs := wideService(t)
+		x.files, x.roots = append(x.files, f), append(x.roots, rs...)
+	}
+	if rapid.IntRange(0, 3).Draw(t, "manyTests") == 3 {
+		x.files = append(x.files, manyTests(t))
 	}
 	return x
 }
